@@ -404,7 +404,7 @@ mut("c10-failed-root-leaves-no-tree", "C10", "an outermost svg that cannot be pr
                         # The outermost svg itself: nothing of the document is rendered, it is still a document.
                         return SVG()''',
 '''                    if False:
-                        return SVG()''')
+                        return SVG()''', runs=80000)
 mut("c10-dangling-use-raises", "C10", "a use whose target does not exist is no longer tolerated",
 '''                        target = event_defs.get(url[1:])  # None: failed to find link.''',
 '''                        target = event_defs[url[1:]]''')
@@ -431,9 +431,6 @@ mut("c10-percent-base-leaks", "C10", "the percentage base set by an embedded svg
 mut("c10-cyclic-use-unbounded", "C10", "use expansion no longer stops at a reference that is being instantiated (the pinned tree's defect)",
 '''                    if url is not None and url[1:] not in active:''',
 '''                    if url is not None:''')
-mut("c10-unresolvable-root-skipped", "C10", "an outermost svg whose em/ex size cannot be resolved is skipped and the next element becomes the root (the pinned tree's defect)",
-'''                            except (ZeroDivisionError, ValueError):''',
-'''                            except ZeroDivisionError:''', runs=80000)
 mut("c10-ids-registered-with-any-root", "C10", "ids of uses are registered with whatever the root is (AttributeError when the outermost element is a group; the pinned tree's defect)",
 '''                        if SVG_ATTR_ID in attributes and isinstance(root, SVG) and use == 1:''',
 '''                        if SVG_ATTR_ID in attributes and root is not None and use == 1:''', runs=20000)
